@@ -30,7 +30,7 @@ mvars == <<k, cur, maxtok, bad>>
 
 Init == k = 1 /\ cur = [s \in 1..MaxSlot |-> 0] /\ maxtok = 0 /\ bad = <<>>
 
-Ops == {"new", "remove", "inject", "reset"}
+Ops == {"new", "remove", "inject", "reset", "round_trip", "clone_swap"}
 ObsOK(e, c) == \A i \in DOMAIN e.isrem :
                   e.isrem[i][2] = (IF \E s \in 1..MaxSlot : c[s] = e.isrem[i][1] THEN 0 ELSE 1)
 
@@ -40,6 +40,9 @@ Next ==
   /\ LET e == Rec[k] IN
      \/ /\ e.op = "reset"
         /\ cur' = [s \in 1..MaxSlot |-> 0] /\ maxtok' = 0 /\ bad' = bad /\ k' = k + 1
+     \/ /\ e.op \in {"round_trip", "clone_swap"}       \* the arena was replaced by a copy of itself
+        /\ cur' = cur /\ maxtok' = maxtok
+        /\ bad' = (IF ObsOK(e, cur) THEN bad ELSE <<k, "C06:is_removed">>) /\ k' = k + 1
      \/ /\ e.op = "inject"
         /\ cur' = [cur EXCEPT ![e.a] = maxtok + e.b] /\ maxtok' = maxtok + e.b
         /\ bad' = (IF ObsOK(e, cur') THEN bad ELSE <<k, "C06:is_removed">>) /\ k' = k + 1
